@@ -227,18 +227,19 @@ def classify(ty, x):
                 if own.kind == 'value' and deep_typed_eq(_listify(own.val), _listify(d.val))[0]:
                     return 'untagged-union-reparse-ambiguity'
             # the other face of the same limitation: on the way OUT the union asks each member's fast pass about the TYPED value, and an
-            # earlier member that would read it as data (a datetime as a date, a bool as a count) serialises it ITS way - what was
-            # written is then not what x's own member writes, and nobody reads it back as x
-            if j_true is not None and j_true > 0:
+            # earlier member that would read it as data (a datetime as a date, a bool as a count) serialises it ITS way - or a later one
+            # does, because x's own member's fast pass refuses the typed value (a ValueOrList instance is not data its converter
+            # reads): what was written is then not what x's own member writes, and nobody reads it back as x
+            if j_true is not None:
                 j_ser = None
                 for j, A in enumerate(members):
                     if observe(lambda: env.make_converter(A).try_convert(x)).kind == 'value':
                         j_ser = j
                         break
-                if j_ser is not None and j_ser < j_true:
+                if j_ser is not None and j_ser != j_true:
                     theirs = observe(env.into_data, x, members[j_ser])
                     if theirs.kind == 'value' and deep_typed_eq(_listify(theirs.val), _listify(d.val))[0]:
-                        return 'untagged-union-earlier-member-serialises-the-typed-value'
+                        return 'untagged-union-other-member-serialises-the-typed-value'
     if ty.k == 'union':
         for m in ty.a:
             wrapped = [n for n in _nodes(m) if n.k == 'tagged' and n.x['external'] is not False]
